@@ -104,7 +104,7 @@ class _Loader(importlib.machinery.SourceFileLoader):
 
 
 def _wanted(name):
-    if name in ("_strptime", "dateutil.relativedelta", "dateparser"):
+    if name in ("_strptime", "dateutil.relativedelta", "dateparser", "pytz.tzinfo"):
         return True
     if name.startswith("dateparser.") and not name.startswith("dateparser.data"):
         return True
@@ -117,7 +117,7 @@ class _Finder(importlib.abc.MetaPathFinder):
             # always resolve the repository's packages from REPO, whatever is installed
             search = [REPO] if "." not in name else path
             spec = importlib.machinery.PathFinder.find_spec(name, search)
-        elif name in ("_strptime", "dateutil.relativedelta"):
+        elif name in ("_strptime", "dateutil.relativedelta", "pytz.tzinfo"):
             spec = importlib.machinery.PathFinder.find_spec(name, path)
         else:
             return None
@@ -203,7 +203,9 @@ def install(extra_modules=()):
     if _INSTALLED:
         return _INSTALLED["ns"]
     sys.dont_write_bytecode = True
-    for m in [m for m in sys.modules if m == "_strptime" or m.split(".")[0] in ("dateparser", "dateparser_data")
+    # pytz is re-imported as a whole so that the zone classes it builds derive from the instrumented pytz.tzinfo classes
+    # (DstTzInfo.localize / normalize / fromutc / utcoffset are then executed symbolically: real code, no model)
+    for m in [m for m in sys.modules if m == "_strptime" or m.split(".")[0] in ("dateparser", "dateparser_data", "pytz")
               or m == "dateutil.relativedelta" or m in ("strptime_patched", "calendar_patched")]:
         del sys.modules[m]
     sys.meta_path.insert(0, _Finder())
@@ -238,6 +240,10 @@ def install(extra_modules=()):
     mods = [dateparser, CONF, D, DP, F, LD, LO, LL, P, TZ, U, US, SS, SE, CA, JP, HP, JA, HI]
     for mod in mods:
         _rebind_module(mod, sre_regex, sre_re)
+    import pytz.tzinfo as PT
+    PT.bisect_right = dates.sx_bisect_right
+    PT.set = strings.sx_set_type
+    REBOUND["pytz.tzinfo"] = ["bisect_right", "set"]
     import dateutil.relativedelta as RD
 
     def _copysign(a, x):
@@ -256,6 +262,6 @@ def install(extra_modules=()):
         sp._regex_cache.clear()
     REBOUND["_strptime"] = ["re_compile", "datetime_date"]
     ns = types.SimpleNamespace(dateparser=dateparser, CONF=CONF, D=D, DP=DP, F=F, LD=LD, LO=LO, LL=LL, P=P, TZ=TZ, U=U,
-                               US=US, SS=SS, SE=SE, CA=CA, JP=JP, HP=HP, RD=RD, sre_regex=sre_regex, sre_re=sre_re)
+                               US=US, SS=SS, SE=SE, CA=CA, JP=JP, HP=HP, RD=RD, PT=PT, sre_regex=sre_regex, sre_re=sre_re)
     _INSTALLED["ns"] = ns
     return ns
